@@ -160,6 +160,8 @@ func init() {
 	// the verified packages. Read returns 0 <= n <= len(buf).
 	closeFn := func(x *Exec, fr *Frame, st *State, cc *ssa.CallCommon, a []Val) (Val, bool) {
 		x.disown(st, a[0], "closed")
+		// ghost: the values Close was called on along this path (spec builtin closed(v))
+		st.ghost[fmt.Sprintf("closedv:%d", len(st.ghost))] = a[0].T
 		x.funcsUsed["lib:io.Reader/io.Closer (foreign objects: Read returns 0<=n<=len(buf); no effect on the verified packages' memory)"] = true
 		return x.freshVal(st, "close_err", errT), true
 	}
